@@ -227,3 +227,30 @@ package policy
 //@   ensures [C14] shape: result1 == nil ==> result0 != nil && nodeKind(result0) == datamodel.Kind_List && nodeStr(listElem(result0, 0)) == stmtKind(statement) && (listLen(result0) == 2 || listLen(result0) == 3)
 //@   ensures [C09] total: true
 //@   decreases stmtSize(statement), 0
+//@
+//@ // ---- C11: the clauses of the property as lemmas over the characterisation used in semDef -----------------------------
+//@ // famA: an arbitrary family of outcomes (the operands of a connective, or the elements under a quantifier);
+//@ // permF / permG: an arbitrary permutation of the index range and its inverse
+//@ ghost func famA(i int) int
+//@ ghost func permF(i int) int
+//@ ghost func permG(i int) int
+//@ pure func famOK(n int) bool = forall j int :: {famA(j)} 0 <= famA(j) && famA(j) <= 3
+//@ pure func isPerm(n int) bool = forall j int :: {permF(j)} {permG(j)} {famA(j)} 0 <= j && j < n ==> 0 <= permF(j) && permF(j) < n && permG(permF(j)) == j && 0 <= permG(j) && permG(j) < n && permF(permG(j)) == j
+//@ // r is the outcome of and / all over the first n members of the family (resp. of the permuted family)
+//@ pure func isWorst(r int, n int) bool = 0 <= r && r <= 3 && (forall j int :: {famA(j)} 0 <= j && j < n ==> rank(famA(j)) <= rank(r)) && (n <= 0 ? r == 0 : (exists j int :: 0 <= j && j < n && famA(j) == r))
+//@ pure func isWorstP(r int, n int) bool = 0 <= r && r <= 3 && (forall j int :: {permF(j)} 0 <= j && j < n ==> rank(famA(permF(j))) <= rank(r)) && (n <= 0 ? r == 0 : (exists j int :: 0 <= j && j < n && famA(permF(j)) == r))
+//@ // r is the outcome of or / any (e: the outcome for an empty family: true for or, false for any)
+//@ pure func isBest(r int, n int, e int) bool = 0 <= r && r <= 3 && (n <= 0 ? r == e : ((forall j int :: {famA(j)} 0 <= j && j < n ==> rank(famA(j)) >= rank(r)) && (exists j int :: 0 <= j && j < n && famA(j) == r)))
+//@ pure func isBestP(r int, n int, e int) bool = 0 <= r && r <= 3 && (n <= 0 ? r == e : ((forall j int :: {permF(j)} 0 <= j && j < n ==> rank(famA(permF(j))) >= rank(r)) && (exists j int :: 0 <= j && j < n && famA(permF(j)) == r)))
+//@ lemma [C11] and_order_independent(n int, r1 int, r2 int): famOK(n) && isPerm(n) && isWorst(r1, n) && isWorstP(r2, n) ==> r1 == r2
+//@ lemma [C11] or_order_independent(n int, r1 int, r2 int, e int): famOK(n) && isPerm(n) && isBest(r1, n, e) && isBestP(r2, n, e) ==> r1 == r2
+//@ // adding an operand to an and (an element under all) never turns a failing outcome into a passing one, for the full and for the partial match
+//@ lemma [C11] and_monotone(n int, r1 int, r2 int): famOK(n) && 0 <= n && isWorst(r1, n) && isWorst(r2, n + 1) ==> rank(r1) <= rank(r2) && (!passes(r1) ==> !passes(r2)) && (!ppasses(r1) ==> !ppasses(r2))
+//@ // when every operand has data (outcomes true / false only) the connectives are the classical ones
+//@ lemma [C11] and_classical(n int, r int): famOK(n) && 0 <= n && (forall j int :: {famA(j)} 0 <= j && j < n ==> famA(j) == 0 || famA(j) == 1) && isWorst(r, n) ==> (r == 0 || r == 1) && ((r == 0) == (forall j int :: {famA(j)} 0 <= j && j < n ==> famA(j) == 0))
+//@ lemma [C11] or_classical(n int, r int): famOK(n) && 0 < n && (forall j int :: {famA(j)} 0 <= j && j < n ==> famA(j) == 0 || famA(j) == 1) && isBest(r, n, 0) ==> (r == 0 || r == 1) && ((r == 0) == (exists j int :: 0 <= j && j < n && famA(j) == 0))
+//@ // a full match implies a partial match; missing required data fails the full match only; missing optional data passes both
+//@ lemma [C11] full_implies_partial(r int): passes(r) ==> ppasses(r)
+//@ lemma [C11] missing_data(r int): (r == 2 ==> !passes(r) && ppasses(r)) && (r == 3 ==> passes(r) && ppasses(r))
+//@ // matching a concatenation is matching both parts (policies are conjunctions of their statements)
+//@ lemma [C11] concat(n int, m int): 0 <= n && 0 <= m ==> ((forall j int :: {famA(j)} 0 <= j && j < n + m ==> passes(famA(j))) == ((forall j int :: {famA(j)} 0 <= j && j < n ==> passes(famA(j))) && (forall j int :: {famA(j)} n <= j && j < n + m ==> passes(famA(j)))))
